@@ -60,4 +60,82 @@ StepsCheck(c, e) ==
                     /\ \A i \in 1..Len(o.offs) : o.offs[i] + 1 = o.items[i]
 
 StepsFails(e) == {c \in StepsChecks : ~StepsCheck(c, e)}
+
+\* ---- C12: derived curves ---------------------------------------------------
+\* op "curve_trace": in.ev = event instants, in.n = prefix_jobs; out.eta = table 0..H of the inferred curve
+CurveTraceChecks == {"returns", "bounds_every_window", "zero", "monotone"}
+CurveTraceCheck(c, e) ==
+    LET o == e.out
+        returned == "eta" \in DOMAIN o
+    IN CASE c = "returns" -> returned
+       [] ~returned -> TRUE
+       [] c = "zero" -> At(o.eta, 0) = 0
+       [] c = "monotone" -> IsMonotone(o.eta)
+       \* every window of every length (also beyond the recorded prefix) holds at most eta events
+       [] c = "bounds_every_window" -> \A dl \in 0..Horizon(o.eta) : WinCount(e.in.ev, dl) <= At(o.eta, dl)
+CurveTraceFails(e) == {c \in CurveTraceChecks : ~CurveTraceCheck(c, e)}
+
+\* op "derive": out.src / out.der = tables 0..H of the source and of the derived object,
+\* out.covered = interval length up to which they must coincide, in.exact = the source's own
+\* table is the tight curve of its process everywhere, out.root = table of the exact root model
+\* in.exact_upto = the interval length up to which the source's own table is the tight curve of its
+\* process (everything for Periodic / Sporadic / auto-extrapolating curves; the stored prefix for a
+\* plain Curve; the horizon for an ArrivalCurvePrefix)
+DeriveChecks == {"returns", "never_smaller_than_source", "never_smaller_than_source_beyond_exact_region",
+                 "never_smaller_than_root", "coincides_on_covered_prefix"}
+DeriveCheck(c, e) ==
+    LET o == e.out
+        returned == "der" \in DOMAIN o
+    IN CASE c = "returns" -> returned
+       [] ~returned -> TRUE
+       [] c = "never_smaller_than_source" ->
+            \A x \in 0..MinOf(Horizon(o.der), e.in.exact_upto) : At(o.der, x) >= At(o.src, x)
+       [] c = "never_smaller_than_source_beyond_exact_region" ->
+            \A x \in 0..Horizon(o.der) : (x > e.in.exact_upto) => At(o.der, x) >= At(o.src, x)
+       [] c = "never_smaller_than_root" ->
+            ("root" \in DOMAIN o) => \A i \in 1..Len(o.der) : o.der[i] >= o.root[i]
+       [] c = "coincides_on_covered_prefix" ->
+            \A x \in 0..MinOf(MinOf(o.covered, e.in.exact_upto), Horizon(o.der)) : At(o.der, x) = At(o.src, x)
+DeriveFails(e) == {c \in DeriveChecks : ~DeriveCheck(c, e)}
+
+\* op "dmin_iter": out.items = first items <<n, x>> of delta_min_iter, out.eta = table 0..H
+\* exact dual: for n >= 2, n events fit into some window of length x+1 but into no window of length x
+DminIterChecks == {"returns", "starts_with_0_and_1", "consecutive_n", "exact_dual"}
+DminIterCheck(c, e) ==
+    LET o == e.out
+        returned == "items" \in DOMAIN o
+        H == Horizon(o.eta)
+    IN CASE c = "returns" -> returned
+       [] ~returned -> TRUE
+       [] c = "starts_with_0_and_1" ->
+            /\ Len(o.items) >= 2 => (o.items[1] = <<0, 0>> /\ o.items[2] = <<1, 0>>)
+       [] c = "consecutive_n" -> \A i \in 1..Len(o.items) : o.items[i][1] = i - 1
+       [] c = "exact_dual" ->
+            /\ \A i \in 3..Len(o.items) :
+                 LET n == o.items[i][1]
+                     x == o.items[i][2]
+                 IN (x + 1 <= H) => (At(o.eta, x + 1) >= n /\ At(o.eta, x) < n)
+            \* and no n reachable within the horizon is missing
+            /\ (~o.exhausted) \/ (\A n \in 2..At(o.eta, H) : n <= Len(o.items) - 1)
+DminIterFails(e) == {c \in DminIterChecks : ~DminIterCheck(c, e)}
+
+\* ---- C13 (a)-(c): extrapolation of delta-min prefixes -----------------------
+\* op "curve_ext": in.d = original prefix, out.orig / out.ext tables 0..H, out.ext_last = largest
+\* stored distance after the extension
+CurveExtChecks == {"returns", "inside_prefix_unchanged", "never_more_arrivals", "never_more_arrivals_beyond",
+                   "still_bounds_prefix_sequences"}
+CurveExtCheck(c, e) ==
+    LET o == e.out
+        returned == "ext" \in DOMAIN o
+        d == e.in.d
+        H == Horizon(o.ext)
+    IN CASE c = "returns" -> returned
+       [] ~returned -> TRUE
+       [] c = "inside_prefix_unchanged" -> \A x \in 0..MinOf(H, d[Len(d)]) : At(o.ext, x) = At(o.orig, x)
+       [] c = "never_more_arrivals" -> \A x \in 0..MinOf(H, o.ext_last) : At(o.ext, x) <= At(o.orig, x)
+       [] c = "never_more_arrivals_beyond" -> \A x \in 0..H : (x > o.ext_last) => At(o.ext, x) <= At(o.orig, x)
+       \* every sequence respecting the original prefix is still bounded: the tight curve is a floor
+       [] c = "still_bounds_prefix_sequences" ->
+            (e.in.how # "b") => LET t == CurveEtaTable(d, H) IN \A i \in 1..Len(t) : o.ext[i] >= t[i]
+CurveExtFails(e) == {c \in CurveExtChecks : ~CurveExtCheck(c, e)}
 =============================================================================
